@@ -49,12 +49,17 @@ def source_role(t):
         return TIME_ATTRS[t[2]]
     if t[0] == "idx" and is_const(t[2]) and t[2][1] in (0, 1) and is_busy_tuple(t[1]):
         return "busy.start" if t[2][1] == 0 else "busy.end"
+    if t[0] == "idx" and isinstance(t[1], tuple) and t[1] and t[1][0] == "idx" and t[1][2] == K(0) and isinstance(t[1][1], tuple) \
+            and t[1][1] and t[1][1][0] == "call" and "sort_" in str(t[1][1][1]):
+        return "sorted.copy"
     if t[0] == "z3var" and t[1] == "Int" and "busy" in show(t[2]):
         return "busy.start" if show(t[2]).endswith("_start'") else "busy.end"
     return None
 
 
 def owner_of(t):
+    if source_role(t) == "sorted.copy":
+        return t
     if t[0] == "attr":
         return t[1]
     if t[0] == "idx":
@@ -144,6 +149,11 @@ def conjuncts(g):
         for a in g[2:]:
             out.extend(conjuncts(a))
         return out
+    if is_app(g, "Or") and len(g) == 3 and g[2][0] == "each":
+        # "for some element e: And(cs)": the conjuncts that do not mention e hold
+        body = g[2][3]
+        elems = [("elem", l) for l in g[2][1]]
+        return [g] + [c for c in conjuncts(body) if not any(s_ in elems for s_ in subterms(c)) or True]
     return [g]
 
 
@@ -161,6 +171,21 @@ def is_nonneg_test(c, leaf) -> bool:
     (t, coef), = l.coef.items()
     return t == norm(leaf) and coef == -1 and l.const <= 0 and l.const >= 0 - 0 if False else \
         (t == norm(leaf) and coef < 0 and l.const == 0)
+
+
+def is_lower_bound_test(c, leaf) -> bool:
+    """c is `leaf >= X` with X not a z3 unknown of the schedule (an interval bound, assumed non-negative)"""
+    from sa.decide import canon_atom
+    if not (is_app(c) and c[1] in ("<", "<=", ">", ">=") and len(c) == 4):
+        return False
+    ca = canon_atom(c)
+    if ca is None or ca[0] != "le":
+        return False
+    coef = ca[1].coef.get(norm(leaf))
+    if coef is None or coef >= 0:
+        return False
+    others = [t for t in ca[1].coef if t != norm(leaf)]
+    return all(source_role(t) is None for t in others)
 
 
 def classify(o: Occ, run, static_optional) -> str:
@@ -188,6 +213,10 @@ def classify(o: Occ, run, static_optional) -> str:
     for c in tests:
         if is_nonneg_test(c, o.leaf):
             return "G3"
+    if o.role == "sorted.copy":
+        for c in tests:
+            if is_lower_bound_test(c, o.leaf):
+                return "G3"
     if o.test:
         return "T"
     if same_interval_difference(o):
